@@ -372,6 +372,10 @@ func runC14(seed int64, n int, tier string, outDir string) (*Report, error) {
 
 	// arbitrary strings: reflexive and symmetric; IRIs.Contains agrees with Equals
 	junk := append([]string{}, c14Junk...)
+	// one URL in its absolute form and in forms that lack a scheme or are otherwise not absolute URLs: the test "both
+	// are valid URLs" must look at both arguments
+	junk = append(junk, "https://example.com/a", "http://example.com/a", "https://example.com/a/", "//example.com/a", "//EXAMPLE.com/a/", "//example.com", "example.com/a",
+		"https:/example.com/a", "https:example.com/a", "/a", "a", "https://example.com/a?x=1", "//example.com/a?x=1")
 	for i := 0; i < 40; i++ {
 		junk = append(junk, grid[g.Intn(len(grid))])
 	}
